@@ -110,10 +110,16 @@ PROPS = {
               'checked for linearizability against the array model (bundle members individually atomic, in order); '
               'non-trivial = >= 4 requests, >= 2 on shared ranges, checker decided.  Second part "storm": every session sends '
               'bundles at once, pre-emption confined to the deferred member parsing (terminate/closure) and a thread releasing a '
-              'shared lock is held back there in 1 of 3 releases'),
+              'shared lock is held back there in 1 of 3 releases.  Third part "cold": 3..12 auto-placed tags, no barrier -- the '
+              'sessions\' first requests meet the lazy set-up (logix.setup / setup_tag) with 2..8 pre-emptions at small gaps inside '
+              'setup_tag; besides the history check, no two configured tags may end up on one attribute.  Fourth part "rw": half of '
+              'the sessions only read one whole tag, the others only write all of it; pre-emption confined to the storage '
+              'accessors and to the element encoders while they encode tag data (between "executed" and "reply encoded")'),
         assumptions=['linearizability search capped at 2e5 nodes; a cap hit is counted as undecided, never as pass or fail'],
-        quick=dict(parts=[dict(world='c09', count=600), dict(world='c09', count=160, params={'storm': True})]),
-        thorough=dict(parts=[dict(world='c09', count=20000), dict(world='c09', count=5000, params={'storm': True})]),
+        quick=dict(parts=[dict(world='c09', count=600), dict(world='c09', count=160, params={'storm': True}),
+                          dict(world='c09', count=240, params={'cold': True}), dict(world='c09', count=160, params={'rw': True})]),
+        thorough=dict(parts=[dict(world='c09', count=20000), dict(world='c09', count=5000, params={'storm': True}),
+                             dict(world='c09', count=6000, params={'cold': True}), dict(world='c09', count=5000, params={'rw': True})]),
     ),
     'C08': dict(
         level='exploration',
